@@ -68,6 +68,7 @@ def run(rep: vk.Report):
     errors = {}
     hits = {}
     simp_hits = {"zero": 0, "one": 0, "const": 0}
+    param_updates = 0
     for g, e in common.corpus(rng, rep.tier, n_expr, errors=errors):
         for k, v in g.hits.items():
             hits[k] = hits.get(k, 0) + v
@@ -127,6 +128,28 @@ def run(rep: vk.Report):
                     nums.append(f"({te}, {ser.s(w.name)}, {common.pts_term(pt)}, {common.pts_term(ppts)}, [{ser.q(val)}])")
                     num_meta.append({"wrt": w.name, "point": pt, "value": val, "idx": len(keep) - 1})
                     obs_added += 1
+                # Parameters re-set AFTER differentiation: the tree already returned, and a fresh gradient() call (which may be served
+                # from the derivative cache), must both follow the new values
+                scal = {n: p for n, p in params.items() if np.ndim(p.value) == 0}
+                if scal and obs_added:
+                    saved_p = {n: p.value for n, p in scal.items()}
+                    for n, p in scal.items():
+                        p.set(float(rng.choice([-1.5, 0.25, 2.0, 3.5, 0.0, 1.0])) + 0.0625 * rng.randrange(8))
+                    param_updates += 1
+                    pt = common.pick_point(rng, names)
+                    try:
+                        with np.errstate(all="ignore"):
+                            v1 = common.fval(gr.evaluate(pt))
+                            v2 = common.fval(AD.gradient(e, w).evaluate(pt))
+                            base = common.fval(e.evaluate(pt))
+                    except Exception:
+                        v1 = v2 = base = None
+                    if None not in (v1, v2, base):
+                        ppts = {n: p.value for n, p in scal.items()}
+                        nums.append(f"({te}, {ser.s(w.name)}, {common.pts_term(pt)}, {common.pts_term(ppts)}, [{ser.q(v1)}; {ser.q(v2)}])")
+                        num_meta.append({"wrt": w.name, "point": pt, "value": [v1, v2], "idx": len(keep) - 1, "after_parameter_update": ppts})
+                    for n, p in scal.items():
+                        p.set(saved_p[n])
     tree_fails = trees.run()
     num_checker = ("fun c => match c with (e, v, pts, ppts, obs) => "
                    "worst (map (num_check (grad ln2c ln10c v e) pts ppts) obs) end")
@@ -144,6 +167,9 @@ def run(rep: vk.Report):
         m = num_meta[i]
         e, w, gr = keep[m["idx"]]
         wit = central_difference_witness(e, w, gr, rng)
+        if wit is None and m.get("after_parameter_update"):
+            wit = {"history": "gradient() called, then Parameter.set(), then the derivative evaluated", "parameters_now": m["after_parameter_update"],
+                   "point": m["point"], "wrt": m["wrt"], "derivative_values_returned_tree_and_fresh_call": m["value"]}
         rep.violation({"kind": "numeric", "obligation": "value of derivative tree within the enclosure of the proved derivative",
                        "case": nums[i][:5000], "meta": m, "witness": wit}, concrete=wit is not None)
 
